@@ -1,0 +1,21 @@
+//go:build verif
+// +build verif
+
+package payment
+
+import (
+	"math/big"
+
+	"github.com/vipnode/vipnode/v2/pool/store"
+)
+
+// VerifContractPayment returns the contract-aware balance store proxy over a
+// scripted deposit getter instead of a deployed contract (verification hook,
+// only built with -tags verif). Every lookup goes to the getter (no caching
+// across calls) so that the scripted deposits can change between operations.
+func VerifContractPayment(storeDriver store.AccountStore, getter func(account store.Account) (*big.Int, error)) *contractPayment {
+	p := &contractPayment{store: storeDriver}
+	p.balanceCache.Getter = getter
+	p.balanceCache.expireAfter = 1 // 1ns: entries are always expired at the next lookup
+	return p
+}
